@@ -103,6 +103,10 @@ type c05Case struct {
 	Multi []bool    `json:"multi"` // program has a constructor with >= 2 members (which error is reported may vary)
 	Docs  []string  `json:"docs"`
 	Steps []c05Step `json:"steps"`
+	// FreshProc = [expr, doc]: after the history, the outcome of this pair in
+	// this process is compared with its outcome in a brand-new process (which
+	// has evaluated nothing else before)
+	FreshProc []int `json:"fresh_process,omitempty"`
 	// Reg[i]: expression i carries Expr-level registrations ($reg = "R" and
 	// $regf(x) = x & "!"), i.e. it is evaluated with bindings of its own
 	Reg []bool `json:"reg,omitempty"`
@@ -163,6 +167,10 @@ func (m *c05Machine) observe(text string, multi bool, doc int, out port.Outcome,
 		return ""
 	}
 	if port.Same(first, out) {
+		// an argument error also names the function and the argument position
+		if out.Kind == port.KError && (out.Err == "ArgCount" || out.Err == "ArgType") && first.Msg != out.Msg && !multi {
+			return fmt.Sprintf("%s of %q on input %s failed with %q, an earlier evaluation of the same program on an equal input failed with %q", how, text, trunc(m.c.Docs[doc], 120), out.Msg, first.Msg)
+		}
 		return ""
 	}
 	if multi && first.Kind == port.KError && out.Kind == port.KError {
@@ -240,6 +248,46 @@ func c05Replay(c c05Case) string {
 			return msg
 		}
 	}
+	return c05FreshProcess(c)
+}
+
+// c05FreshProcess: "whatever ... any other expression in the process has
+// evaluated before" - a process that has evaluated nothing is the baseline.
+func c05FreshProcess(c c05Case) string {
+	if len(c.FreshProc) != 2 {
+		return ""
+	}
+	i, j := c.FreshProc[0], c.FreshProc[1]
+	if i >= len(c.Texts) || j >= len(c.Docs) || (i < len(c.Reg) && c.Reg[i]) {
+		return ""
+	}
+	here := port.Run(c.Texts[i], c.Docs[j])
+	if here.Kind == port.KPanic {
+		return ""
+	}
+	is := newIsolator()
+	r := is.Call("evalv", mustJSON(evalCase{Text: c.Texts[i], Input: c.Docs[j]}))
+	is.Close()
+	if r.Status != isoOK {
+		return ""
+	}
+	var there evalResult
+	if json.Unmarshal(r.Result, &there) != nil {
+		return ""
+	}
+	same := there.Kind == here.Kind
+	switch {
+	case same && here.Kind == port.KValue:
+		same = there.Msg == here.Repr
+	case same && here.Kind == port.KError:
+		same = there.Err == here.Err || (i < len(c.Multi) && c.Multi[i])
+		if same && there.Err == here.Err && (here.Err == "ArgCount" || here.Err == "ArgType") && !(i < len(c.Multi) && c.Multi[i]) {
+			same = there.Msg == here.Msg // the function named and the argument position
+		}
+	}
+	if !same {
+		return fmt.Sprintf("%q on input %s gives %s in this process (after the history) but %s %s %s in a process that has evaluated nothing else", c.Texts[i], trunc(c.Docs[j], 120), here.String(), there.Kind, there.Err, there.Msg)
+	}
 	return ""
 }
 
@@ -266,7 +314,26 @@ func genStateful() *rapid.Generator[*ast.Node] {
 	name := rapid.Custom(func(t *rapid.T) *ast.Node { return ast.NameN(rapid.SampledFrom(gen.Names).Draw(t, "n")) })
 	ctxFns := []string{"string", "length", "uppercase", "lowercase", "trim", "number", "abs", "boolean", "keys", "type", "spread"}
 	return rapid.Custom(func(t *rapid.T) *ast.Node {
-		switch rapid.IntRange(0, 17).Draw(t, "shape") {
+		switch rapid.IntRange(0, 23).Draw(t, "shape") {
+		case 18: // the same picture with and without decimal-format options (possibly in different expressions of the pool)
+			pic := rapid.SampledFrom([]string{"0.000", "#,##0.00", "0,0.0"}).Draw(t, "pic")
+			args := []*ast.Node{ast.NumN(rapid.SampledFrom([]float64{1234.25, 0.5, 1234567.891}).Draw(t, "fx")), ast.StrN(pic)}
+			if rapid.Bool().Draw(t, "opts") {
+				args = append(args, ast.N(ast.Obj, ast.StrN("decimal-separator"), ast.StrN(","), ast.StrN("grouping-separator"), ast.StrN(".")))
+			}
+			return ast.CallN("formatNumber", args...)
+		case 19: // the evaluation clock: $now and $millis denote one instant (the difference is always 0)
+			return ast.BlockN(&ast.Node{K: ast.Assign, S: "a", C: []*ast.Node{ast.CallN("millis")}}, ast.CallN("sum", ast.ArrN(ast.N(ast.Range, ast.NumN(1), ast.NumN(3000)))),
+				ast.BinN("-", ast.CallN("toMillis", ast.CallN("now")), ast.VarN("a")))
+		case 20: // a built-in called through a differently named variable
+			f1 := rapid.SampledFrom([]string{"join", "sum", "count", "append", "reduce", "map", "merge", "string", "substringBefore"}).Draw(t, "f1")
+			return ast.BlockN(&ast.Node{K: ast.Assign, S: "al", C: []*ast.Node{ast.VarN(f1)}}, ast.CallE(ast.VarN("al"), small.Draw(t, "x"), ast.StrN("-")))
+		case 21: // the same built-ins reached without a call expression, with arguments that do not fit
+			f1 := rapid.SampledFrom([]string{"join", "sum", "count", "append", "reduce", "map", "merge", "string", "substringBefore"}).Draw(t, "f1")
+			if rapid.Bool().Draw(t, "viaMap") {
+				return ast.CallN("map", ast.ArrN(ast.StrN("a"), ast.NumN(1)), ast.VarN(f1))
+			}
+			return ast.N(ast.Chain, small.Draw(t, "lhs"), ast.VarN(f1))
 		case 0: // chain into a call
 			return ast.N(ast.Chain, small.Draw(t, "lhs"), ast.CallN(rapid.SampledFrom([]string{"power", "substring", "pad", "append", "join", "split", "contains", "round", "substringBefore"}).Draw(t, "fn"), small.Draw(t, "arg")))
 		case 1: // chain of chains
@@ -308,6 +375,25 @@ func genStateful() *rapid.Generator[*ast.Node] {
 	})
 }
 
+// isClockDifference recognises shape 19: it reads the clock but its value, the
+// difference of two readings within one evaluation, is always 0.
+func isClockDifference(p *ast.Node) bool {
+	return p.K == ast.Block && len(p.C) == 3 && p.C[0].K == ast.Assign && p.C[0].S == "a" && p.C[2].K == ast.Bin && p.C[2].S == "-" &&
+		!p.C[1].Has(func(n *ast.Node) bool { return n.K == ast.Var && nondetBuiltins[n.S] })
+}
+
+// c05BareBuiltin recognises shape 21 ($map([..], $f) or x ~> $f) and returns f.
+func c05BareBuiltin(p *ast.Node) string {
+	names := map[string]bool{"join": true, "sum": true, "count": true, "append": true, "reduce": true, "map": true, "merge": true, "string": true, "substringBefore": true}
+	switch {
+	case p.K == ast.Call && len(p.C) == 3 && p.C[0].K == ast.Var && p.C[0].S == "map" && p.C[2].K == ast.Var && names[p.C[2].S]:
+		return p.C[2].S
+	case p.K == ast.Chain && len(p.C) == 2 && p.C[1].K == ast.Var && names[p.C[1].S]:
+		return p.C[1].S
+	}
+	return ""
+}
+
 func c05Multi(prog *ast.Node) bool {
 	return prog.Has(func(n *ast.Node) bool {
 		return (n.K == ast.Obj && len(n.C) > 2) || (n.K == ast.Group && len(n.C) > 3)
@@ -326,7 +412,7 @@ func TestC05_Histories(t *testing.T) {
 		ne := rapid.IntRange(1, 4).Draw(rt, "nexprs")
 		for len(c.Texts) < ne {
 			p := ast.Normalize(progs.Draw(rt, "prog"))
-			if !isDeterministic(p) {
+			if !isDeterministic(p) && !isClockDifference(p) {
 				rec.Excluded()
 				continue
 			}
@@ -338,6 +424,32 @@ func TestC05_Histories(t *testing.T) {
 			c.Reg = append(c.Reg, rapid.IntRange(0, 2).Draw(rt, "registered") == 0)
 			c.Multi = append(c.Multi, c05Multi(p))
 			asts = append(asts, p)
+			// $formatNumber(x, picture[, options]): its twin with the other option
+			// setting joins the pool (the same picture read under two formats)
+			if p.K == ast.Call && len(p.C) >= 3 && p.C[0].K == ast.Var && p.C[0].S == "formatNumber" && len(c.Texts) < 4 {
+				twin := p.Clone()
+				if len(twin.C) == 4 {
+					twin.C = twin.C[:3]
+				} else {
+					twin.C = append(twin.C, ast.N(ast.Obj, ast.StrN("decimal-separator"), ast.StrN(","), ast.StrN("grouping-separator"), ast.StrN(".")))
+				}
+				twin = ast.Normalize(twin)
+				c.Texts = append(c.Texts, ast.Print(twin))
+				c.Reg = append(c.Reg, false)
+				c.Multi = append(c.Multi, false)
+				asts = append(asts, twin)
+				ne++
+			}
+			// a built-in reached without a call expression: the pool also gets an
+			// expression that calls the same built-in through another name
+			if bare := c05BareBuiltin(p); bare != "" && len(c.Texts) < 4 {
+				twin := ast.Normalize(ast.BlockN(&ast.Node{K: ast.Assign, S: "al", C: []*ast.Node{ast.VarN(bare)}}, ast.CallE(ast.VarN("al"), ast.ArrN(ast.StrN("a")), ast.StrN("-"))))
+				c.Texts = append(c.Texts, ast.Print(twin))
+				c.Reg = append(c.Reg, false)
+				c.Multi = append(c.Multi, false)
+				asts = append(asts, twin)
+				ne++
+			}
 		}
 		nd := rapid.IntRange(1, 3).Draw(rt, "ndocs")
 		for i := 0; i < nd; i++ {
@@ -370,6 +482,14 @@ func TestC05_Histories(t *testing.T) {
 			"print": do("print"),
 			"rereg": do("rereg"),
 		})
+		if rapid.IntRange(0, 9).Draw(rt, "freshProcess") == 0 {
+			c.Steps = append([]c05Step{}, m.c.Steps...)
+			c.FreshProc = []int{rapid.IntRange(0, ne-1).Draw(rt, "fpExpr"), rapid.IntRange(0, nd-1).Draw(rt, "fpDoc")}
+			rec.Class("compared_with_fresh_process")
+			if msg := c05FreshProcess(c); msg != "" {
+				fail(msg)
+			}
+		}
 		nt := false
 		for i, g := range m.gapped {
 			if g && asts[i].Has(func(n *ast.Node) bool {
